@@ -241,4 +241,130 @@ theorem ins_comm {sl : List (Slot N)} (hrh : RH sl) (hroom : nOcc sl + 2 < sl.le
   obtain ⟨z, hz, hez⟩ := nOcc_lt_exists_empty (ins (ins sl a) b) (by rw [lenAB, lenA]; omega)
   exact RH.unique rhAB rhBA (by rw [lenBA, lenB, lenAB, lenA]) hoccEq hhasEq hz hez
 
+
+/-- keys pairwise different -/
+def DistinctKeys (l : List (Slot N)) : Prop := l.Pairwise (fun a b => contentEq a.1 b.1 = false)
+
+/-- **any permutation of the insertions gives the same slot array** (new, pairwise different, non-nil keys) -/
+theorem build_perm {l1 l2 : List (Slot N)} (hp : l1.Perm l2) :
+    ∀ (sl : List (Slot N)), RH sl → nOcc sl + l1.length < sl.length →
+      (∀ kv ∈ l1, kv.1.isNil = false ∧ NewKey sl kv.1) → DistinctKeys l1 →
+      l1.foldl ins sl = l2.foldl ins sl := by
+  induction hp with
+  | nil => intro sl _ _ _ _; rfl
+  | cons x hp ih =>
+    rename_i l1 l2
+    intro sl hrh hroom hkeys hd
+    simp only [List.foldl_cons]
+    have hx := hkeys x (List.mem_cons_self ..)
+    obtain ⟨f, _, len', rh', _, _, has', n'⟩ := ins_new hrh (by simp at hroom; omega) hx.1 hx.2
+    unfold DistinctKeys at hd
+    rw [List.pairwise_cons] at hd
+    apply ih (ins sl x) rh' (by rw [len', n']; simp at hroom; omega)
+    · intro kv hkv
+      have h1 := hkeys kv (List.mem_cons_of_mem _ hkv)
+      refine ⟨h1.1, newKey_ins h1.2 has' ?_⟩
+      rw [contentEq_symm_both.1]; exact hd.1 kv hkv
+    · exact hd.2
+  | swap x y l =>
+    intro sl hrh hroom hkeys hd
+    simp only [List.foldl_cons]
+    have hy := hkeys y (List.mem_cons_self ..)
+    have hx := hkeys x (List.mem_cons_of_mem _ (List.mem_cons_self ..))
+    unfold DistinctKeys at hd
+    rw [List.pairwise_cons] at hd
+    have hyx : contentEq y.1 x.1 = false := hd.1 x (List.mem_cons_self ..)
+    rw [ins_comm hrh (by simp at hroom; omega) hy.1 hx.1 hy.2 hx.2 hyx]
+  | trans hp1 hp2 ih1 ih2 =>
+    rename_i l1 l2 l3
+    intro sl hrh hroom hkeys hd
+    rw [ih1 sl hrh hroom hkeys hd]
+    apply ih2 sl hrh (by rw [← hp1.length_eq]; exact hroom)
+    · intro kv hkv; exact hkeys kv (hp1.mem_iff.mpr hkv)
+    · unfold DistinctKeys at hd ⊢
+      exact (hp1.pairwise_iff (fun {a b} h => by rw [contentEq_symm_both.1]; exact h)).mp hd
+
+
+theorem tablen_gt' (n : Nat) : n < tablen n := by
+  unfold tablen
+  have : ∀ (l : List Nat) (m : Nat), m ≤ l.foldl (fun n s => n ||| (n >>> s)) m := by
+    intro l
+    induction l with
+    | nil => intro m; exact Nat.le_refl _
+    | cons s l ih => intro m; exact Nat.le_trans Nat.left_le_or (ih _)
+  have := this tablenShifts n
+  omega
+
+theorem isNaNKey_false (k : JVal N) : isNaNKey k = false := by
+  cases k <;> simp [isNaNKey, LawfulNum.eq_refl]
+
+theorem occ_replicate (n j : Nat) : ¬ Occ (List.replicate n (emptySlot : Slot N)) j := by
+  unfold Occ sg
+  by_cases h : j < n <;> simp [List.getD_eq_getElem?_getD, h, emptySlot, JVal.isNil]
+
+theorem RH.replicate (n : Nat) : RH (List.replicate n (emptySlot : Slot N)) :=
+  ⟨fun i _ _ _ h => absurd h (occ_replicate n i), fun i _ h => absurd h (occ_replicate n i),
+   fun a _ _ _ h => absurd h (occ_replicate n a), fun j hj _ => by
+     unfold sg; simp at hj; simp [List.getD_eq_getElem?_getD, hj]⟩
+
+/-- `janet_struct_put` of a valid pair with a new key into a struct that still has room -/
+theorem structPut_new {st : StructBuild N} (hrh : RH st.slots) (hcnt : st.count = nOcc st.slots)
+    (hroom : st.count < st.length) (hcap : st.length < st.slots.length) {kv : Slot N}
+    (hk : kv.1.isNil = false) (hv : kv.2.isNil = false) (hnew : NewKey st.slots kv.1) :
+    structPut st kv.1 kv.2 = { st with slots := ins st.slots kv, count := st.count + 1 } := by
+  obtain ⟨f, hres, _⟩ := ins_new hrh (by omega) hk hnew
+  unfold hm at hres
+  unfold structPut structPutExt
+  have hne : (st.count == st.length) = false := by simp; omega
+  simp only [hk, hv, Bool.or_self, Bool.false_eq_true, if_false, isNaNKey_false, hne, hres, if_true]
+
+/-- a run of puts of valid, new, pairwise different keys -/
+theorem foldl_structPut : ∀ (kvs : List (Slot N)) (st : StructBuild N), RH st.slots → st.count = nOcc st.slots →
+    st.count + kvs.length ≤ st.length → st.length < st.slots.length →
+    (∀ kv ∈ kvs, kv.1.isNil = false ∧ kv.2.isNil = false ∧ NewKey st.slots kv.1) → DistinctKeys kvs →
+    kvs.foldl (fun acc kv => structPut acc kv.1 kv.2) st =
+      { st with slots := kvs.foldl ins st.slots, count := st.count + kvs.length }
+  | [], st, _, _, _, _, _, _ => by simp
+  | kv :: rest, st, hrh, hcnt, hroom, hcap, hv, hd => by
+      have h0 := hv kv (List.mem_cons_self ..)
+      simp only [List.length_cons] at hroom
+      obtain ⟨f, _, len', rh', _, _, has', n'⟩ := ins_new hrh (by omega) h0.1 h0.2.2
+      unfold DistinctKeys at hd
+      rw [List.pairwise_cons] at hd
+      simp only [List.foldl_cons]
+      rw [structPut_new hrh hcnt (by omega) hcap h0.1 h0.2.1 h0.2.2]
+      rw [foldl_structPut rest _ rh' (by simp only []; omega) (by simp only []; omega) (by simp only []; omega)
+        (fun kv' hkv' => by
+          have h1 := hv kv' (List.mem_cons_of_mem _ hkv')
+          refine ⟨h1.1, h1.2.1, newKey_ins h1.2.2 has' ?_⟩
+          rw [contentEq_symm_both.1]; exact hd.1 kv' hkv') hd.2]
+      simp only [List.length_cons]
+      congr 1
+      omega
+
+/-- **struct layout is canonical**: structs built from the same pairs (valid, pairwise different keys) in ANY insertion
+    order are the same value — identical slot arrays, whatever the collision pattern, including wrap-around -/
+theorem structOf_perm {kvs1 kvs2 : List (Slot N)} (proto : List (JVal N)) (hp : kvs1.Perm kvs2)
+    (hvalid : ∀ kv ∈ kvs1, kv.1.isNil = false ∧ kv.2.isNil = false) (hd : DistinctKeys kvs1) :
+    structOf kvs1 proto = structOf kvs2 proto := by
+  have hvalid2 : ∀ kv ∈ kvs2, kv.1.isNil = false ∧ kv.2.isNil = false := fun kv h => hvalid kv (hp.mem_iff.mpr h)
+  have hd2 : DistinctKeys kvs2 :=
+    (hp.pairwise_iff (fun {a b} h => by rw [contentEq_symm_both.1]; exact h)).mp hd
+  have hlen := hp.length_eq
+  have key : ∀ (kvs : List (Slot N)), (∀ kv ∈ kvs, kv.1.isNil = false ∧ kv.2.isNil = false) → DistinctKeys kvs →
+      structOf kvs proto = .struct (flatten (kvs.foldl ins (List.replicate (tablen (2 * kvs.length)) emptySlot))) proto := by
+    intro kvs hv hdk
+    unfold structOf structOfCount
+    have hcap := tablen_gt' (2 * kvs.length)
+    rw [foldl_structPut kvs (structBegin kvs.length) (RH.replicate _) (by simp [structBegin, nOcc_replicate])
+      (by simp [structBegin]) (by simp [structBegin]; omega)
+      (fun kv hkv => ⟨(hv kv hkv).1, (hv kv hkv).2, fun j _ ho => absurd ho (occ_replicate _ j)⟩) hdk]
+    simp [structEnd, structBegin]
+  rw [key kvs1 hvalid hd, key kvs2 hvalid2 hd2, ← hlen]
+  congr 2
+  apply build_perm hp _ (RH.replicate _)
+  · have := tablen_gt' (2 * kvs1.length); simp [nOcc_replicate]; omega
+  · intro kv hkv; exact ⟨(hvalid kv hkv).1, fun j _ ho => absurd ho (occ_replicate _ j)⟩
+  · exact hd
+
 end JanetModel.Value
